@@ -13,6 +13,7 @@ from common import (Machinery, run_tlc, need_ok, run_cases, scratch,
                     validate_traces, settle, seed)
 from project import project
 
+NCPU_MC = 16
 PROP_OF = {'slice': 'C02', 'apply': 'C03', 'stack': 'C04', 'arith': 'C06',
            'eval': 'C06', 'mask': 'C06'}
 
@@ -110,6 +111,30 @@ def template(tid):
         v[...] = _tok((4, 3), 500, 'f')
         f.setCoords(['time', 'lev'])
         f.title = 'times'
+    elif tid == 'M1':
+        # the template of the bounded model spec/PncCore_MC.tla (M1)
+        f.createDimension('t', 2).setunlimited(True)
+        f.createDimension('y', 2)
+        f.createDimension('x', 2)
+        f.createVariable('A', 'f', ('t', 'y', 'x'))[...] = _tok((2, 2, 2),
+                                                              100, 'f')
+        f.createVariable('B', 'i', ('y', 'x'))[...] = _tok((2, 2), 200, 'i')
+        f.createVariable('x', 'd', ('x',))[...] = [10, 20]
+        v = f.createVariable('M', 'f', ('t', 'x'), fill_value=-999.)
+        v[...] = np.ma.masked_array([[110, 111], [112, 113]],
+                                    mask=[[0, 1], [0, 0]])
+        f.setCoords(['x'])
+    elif tid == 'M2':
+        f.createDimension('y', 3)
+        f.createDimension('t', 2).setunlimited(True)
+        f.createDimension('z', 1)
+        f.createVariable('P', 'd', ('y', 't', 'z'))[...] = _tok((3, 2, 1),
+                                                              300, 'd')
+        f.createVariable('Q', 'f', ('t',))[...] = [7, 9]
+        v = f.createVariable('N', 'i', ('y', 't'), fill_value=-1)
+        v[...] = np.ma.masked_array(_tok((3, 2), 150, 'i'),
+                                    mask=[[0, 0], [1, 0], [0, 0]])
+        f.createVariable('E', 'd', ('z',))[...] = [5]
     else:
         raise ValueError(tid)
     return f
@@ -587,3 +612,35 @@ def run_isolation(out, tier):
     progs = [gen_program(rnd, rnd.choice([2, 3, 4]), isolation=True)
              for _ in range(n)]
     run_programs(out, progs, {'iso'}, 'C05-heap', prop='-')
+
+
+MC_ACTS = {'C01': None, 'C02': {'slice'}, 'C03': {'apply'}, 'C04': {'stack'},
+           'C06': {'arith', 'mask'}, 'C05': None}
+
+
+def mc_programs(out, prop, tier):
+    """Model-check the bounded PncCore machine (design-level invariants of
+    `prop`) and return the emitted programs whose last step concerns `prop`."""
+    progs = []
+    depth = 1 if tier == 'quick' else 2
+    for tmpl in ('M1', 'M2'):
+        env = {'PNC_DEPTH': depth, 'PNC_LAWDEPTH': 1, 'PNC_EMIT': '1',
+               'PNC_TEMPLATE': tmpl}
+        cfgp = 'PncCore_MC_%s.cfg' % (prop if prop != 'C05' else 'C01')
+        r = need_ok(run_tlc('PncCore_MC', cfg=cfgp, workers=NCPU_MC,
+                            timeout=3000, env=env, heap='8g'),
+                    'PncCore_MC %s %s' % (prop, tmpl))
+        out.add_tlc('PncCore_MC(%s) template %s depth %d' % (prop, tmpl,
+                                                            depth), r,
+                    'invariants of %s' % cfgp)
+        if r.violated:
+            out.model_violation(r, 'PncCore_MC %s' % tmpl)
+        want = MC_ACTS[prop]
+        for p in r.prints:
+            if isinstance(p, dict) and 'steps' in p:
+                if want is None or p['steps'][-1]['act'] in want:
+                    progs.append({'templates': [p['template']],
+                                  'steps': p['steps']})
+    if not progs:
+        raise Machinery('PncCore_MC emitted no program for %s' % prop)
+    return progs
